@@ -54,6 +54,9 @@ pub struct Runner {
     pub judge_panics: bool,
     /// override every placement (ASan wants exact heap allocations)
     pub force_place: Option<Place>,
+    /// C17: judge the allocation counter after every case (any driver can
+    /// then be reused as an allocation workload)
+    pub alloc_verdict: bool,
     /// print a `case` line before every call (always on under Miri, where a
     /// UB report kills the process and must be attributed to a case)
     pub trace: bool,
@@ -99,6 +102,7 @@ impl Runner {
             judge_values: true,
             judge_panics: true,
             force_place: None,
+            alloc_verdict: false,
             trace: cfg!(miri),
         }
     }
@@ -231,6 +235,21 @@ impl Runner {
                 );
                 false
             }
+        };
+        let ok = if ok && self.alloc_verdict && self.ctx.allocs > 0 {
+            let n = self.ctx.allocs;
+            self.rep.fail(
+                "C17",
+                "alloc",
+                &case,
+                hplace,
+                nplace,
+                &format!("{} heap allocator calls inside the monitored search windows of this case", n),
+                None,
+            );
+            false
+        } else {
+            ok
         };
         if want && ok && !skipped {
             let text = if self.ctx.result_text.is_empty() {
